@@ -3,7 +3,8 @@
    SQL faults on every run) and about the generic tree algorithms it runs. *)
 From Coq Require Import Arith NArith ZArith List Bool.
 From Verif Require Import Base.Bytes Base.Hash Model.Merkle Model.MerkleSpec Model.TreeStore Model.BridgeStore
-  Proofs.Frontier Proofs.Rht Proofs.InitCache Proofs.C01Proofs Proofs.BridgeStoreProofs.
+  Proofs.Frontier Proofs.Rht Proofs.InitCache Proofs.C01Proofs Proofs.BridgeStoreProofs
+  Proofs.TreeStoreProofs Proofs.TreeStoreCorollaries.
 Import ListNotations.
 Local Close Scope N_scope.
 
@@ -33,7 +34,7 @@ Variable node : hash -> hash -> hash.
 Variable z0 : hash.
 Variable f : nat -> hash.
 (* ... initCache on the (rolled back, hence unchanged and closed) store re-establishes the frontier invariant ... *)
-Theorem C07_init_reestablishes_invariant : forall m n H c, Closed node z0 f m n -> 0 < n -> n <= 2 ^ H ->
+Theorem C07_init_reestablishes_invariant : forall m n H c, Closed node z0 f H m n -> 0 < n -> n <= 2 ^ H ->
   exists c', init_walk m H (mroot node z0 f H n) (Nat.testbit (n - 1)) c = Some c' /\ CacheInv node z0 f H n c'.
 Proof. exact (init_cache_inv node z0 f). Qed.
 (* ... and under the invariant the retried append records exactly the root of a run in which the failure never happened *)
@@ -71,7 +72,37 @@ Proof. vm_compute. congruence. Qed.
 Example C07_retry_clean_fixed : f1_run rollback_mem = f1_clean /\ f1_clean <> None.
 Proof. vm_compute. split; congruence. Qed.
 
+
+(* ================= store level: every reachable state of the (generic) executable tree store =================
+   `Reach HT node zhf db mem L`: the store (root table, node table, in-memory frontier) is reachable from the empty one by
+   successful appends of the next index, appends with a wrong index, appends abandoned after the hashing loop (storage fault),
+   memory invalidations with arbitrary cache content (restart, rollback callback, reorg) and Tree.Reorg; L is the surviving
+   history (leaf, block, position). The executable model (compared with the Go code on every run) is the instance
+   HT := 32, node := Keccak-256, zhf := the precomputed zero table (zero_table_is_zero). Hypothesis: node injective. *)
+Section Store.
+Variable HT : nat.
+Variable node : N -> N -> N.
+Hypothesis node_inj : forall a b c d, node a b = node c d -> a = c /\ b = d.
+Variable zhf : nat -> N.
+Hypothesis Hzh : forall h, (h <= HT)%nat -> zhf h = zero node 0%N h.
+(* C07 for the exit tree: a store that went through aborted appends (storage fault after the hashing loop), rollbacks
+   (R_inval on the earlier database) and retries answers every tree query exactly like a store that appended the same
+   leaves without any failure: same root rows, same proofs, same leaves, for every recorded version. *)
+Theorem C07_store_retry_is_clean : forall db1 mem1 db2 mem2 L, Reach HT node zhf db1 mem1 L -> Reach HT node zhf db2 mem2 L ->
+  (forall i, root_by_index db1 i = root_by_index db2 i) /\
+  (forall h, root_by_hash db1 h = root_by_hash db2 h) /\
+  last_root db1 = last_root db2 /\
+  (forall j k, (j < k)%nat -> (k <= length L)%nat ->
+     Gen.get_proof HT zhf db1 (N.of_nat j) (mroot node 0%N (lf L) HT k) = Gen.get_proof HT zhf db2 (N.of_nat j) (mroot node 0%N (lf L) HT k) /\
+     Gen.get_leaf HT db1 (N.of_nat j) (mroot node 0%N (lf L) HT k) = Gen.get_leaf HT db2 (N.of_nat j) (mroot node 0%N (lf L) HT k)).
+Proof. exact (same_history_same_answers HT node node_inj zhf Hzh). Qed.
+Theorem C07_store_retry_is_clean_roots : forall db1 mem1 db2 mem2 L, Reach HT node zhf db1 mem1 L -> Reach HT node zhf db2 mem2 L -> t_roots db1 = t_roots db2.
+Proof. exact (same_history_same_roots HT node node_inj zhf Hzh). Qed.
+End Store.
+
 Print Assumptions C07_fault_atomic.
+Print Assumptions C07_store_retry_is_clean.
+Print Assumptions C07_store_retry_is_clean_roots.
 Print Assumptions C07_ok_records_whole_block.
 Print Assumptions C07_rollback_invalidates_cache.
 Print Assumptions C07_invalid_cache_forces_init.
